@@ -23,7 +23,7 @@ Qed.
 
 Lemma add_spec : forall s p, wf s ->
   wf (add s p) /\ oob (add s p) = oob s /\
-  abs (add s p) = mkA (aps (abs s) ++ [p]) (aNact (abs s)) (aNvar (abs s)) (atree (abs s)).
+  abs (add s p) = mkA (acfg (abs s)) (aps (abs s) ++ [p]) (aNact (abs s)) (aNvar (abs s)) (atree (abs s) || acfg (abs s)).
 Proof.
   intros s p [Hm Ht]. unfold add.
   destruct (grow_ok (length (mem s)) (sN s) Hm) as [G1 G2].
@@ -130,7 +130,7 @@ Qed.
 Lemma set_hash_spec : forall s i h s' r, wf s -> set_hash s i h = (s', r) ->
   wf s' /\ oob s' = oob s /\
   if i <? length (aps (abs s)) then
-    r = RVoid /\ abs s' = mkA (upd (aps (abs s)) i (mkP h (pid (nth i (aps (abs s)) pzero)) (pnan (nth i (aps (abs s)) pzero))))
+    r = RVoid /\ abs s' = mkA (acfg (abs s)) (upd (aps (abs s)) i (mkP h (pid (nth i (aps (abs s)) pzero)) (pnan (nth i (aps (abs s)) pzero))))
                               (aNact (abs s)) (aNvar (abs s)) (atree (abs s))
   else r = RFail /\ s' = s.
 Proof.
